@@ -27,6 +27,7 @@
 //       (after `susp H<m>` and `wake H<m>` a line `V <values of the watched signals>` follows)
 //   E <time> <c> <r|f> <RA> <RA2> <RB>     onClock callback of clock c (after the clocked nodes advanced; '-' for
 //                                          registers of the other clock domain)
+//   P <time> <B|D|A>                       onNewPhase
 //   M <time> <B|D|A> <microtick>           onAfterMicroTick
 //   C <time> <RA> <RA2> <RB> <C>           onCommitState
 //   X <message>                            exception that ended the case (write in read-only mode)
@@ -117,6 +118,9 @@ struct Ctx : public sim::SimulatorCallbacks {
 		bool inA = c == 0, inB = c == (clocks.size() > 1 ? 1 : 0);
 		*out << "E " << ratStr(sim->getCurrentSimulationTime()) << " " << c << " " << (risingEdge ? 'r' : 'f') << " "
 			<< (inA ? val(sigs[0]) : "-") << " " << (inA ? val(sigs[1]) : "-") << " " << (inB ? val(sigs[2]) : "-") << "\n";
+	}
+	void onNewPhase(size_t phase) override {
+		*out << "P " << ratStr(sim->getCurrentSimulationTime()) << " " << PH[phase] << "\n";
 	}
 	void onAfterMicroTick(size_t mt) override {
 		*out << "M " << ratStr(sim->getCurrentSimulationTime()) << " " << PH[(int)sim->getCurrentPhase()] << " " << mt << "\n";
